@@ -76,6 +76,8 @@ type gnet struct {
 	dropP    int
 	stabilised bool
 	log      []string
+	partition bool                             // before stabilisation honest<->honest links are (very) slow
+	onSend    func(from int, msg *gpbft.GMessage) // adversary hook: sees every first transmission of an honest node
 }
 
 var _ gpbft.Host = (*gnode)(nil)
@@ -143,11 +145,18 @@ func (g *gnet) send(from int, msg *gpbft.GMessage, first bool) {
 	if first {
 		g.votes = append(g.votes, &sentVote{sender: from, msg: msg, honest: g.nodes[from].honest, seq: len(g.votes)})
 	}
+	if first && g.onSend != nil && g.nodes[from].honest && !g.stabilised {
+		g.onSend(from, msg)
+	}
 	for _, to := range g.nodes {
 		if to.crashed {
 			continue
 		}
 		d := time.Duration(0)
+		if !g.stabilised && g.partition && to.idx != from && g.nodes[from].honest && to.honest {
+			g.pool = append(g.pool, &pendingMsg{to: to.idx, msg: msg, from: from, ready: g.now.Add(100000 * time.Second)})
+			continue
+		}
 		if !g.stabilised && g.maxDelay > 0 {
 			d = time.Duration(g.r.i64n(int64(g.maxDelay)))
 			if g.dropP > 0 && to.idx != from && g.r.chance(g.dropP) && !first {
